@@ -952,6 +952,18 @@ func splitInlineBox(context *layoutContext, box_ Box, positionX, maxX, bottomSpa
 					linePlaceholders, waitingFloats, lineChildren, &children, waitingChildren)
 				if previousResumeAt != nil {
 					resumeAt = previousResumeAt
+					// the preserved line break, if any, is in the child that
+					// does not fit and goes to the next line
+					preservedLineBreak = false
+					// positionX is the end of the children we tried to put on the
+					// line: go back to the end of those we keep
+					positionX = contentBoxLeft
+					for j := len(children) - 1; j >= 0; j-- {
+						if kept := children[j].box.Box(); kept.IsInNormalFlow() {
+							positionX = kept.PositionX + kept.MarginWidth()
+							break
+						}
+					}
 					break
 				}
 			}
